@@ -203,6 +203,14 @@ def programs(rng, tier):
         x, y, z = rng.choice(((f, g, f), (f, f, g), (f, g, g), (f, f, f)))
         add(["tern", partial_table3(rng, tuple(rng.random() < 0.5 for _ in range(8))), bdd_sx(x), bdd_sx(y), bdd_sx(z)])
         add(["named", rng.choice(list(NAMED)), bdd_sx(f), bdd_sx(f)])
+    # if_then_else whose operands are related by negation (ite(a, b, not b) = a <=> b, ite(a, not a, c), ite(not b, b, c) ...), the
+    # negation computed by the library in the same program, operands of 16..700 nodes
+    for _ in range(40 if tier == "quick" else 1000):
+        nv = rng.choice([5, 6, 7, 8, 10])
+        bx = big_random_bdd(rng, nv) if nv <= 8 else random_bdd(rng, nv, max_support=7)
+        ax = random_bdd(rng, nv, max_support=min(nv, 6))
+        pat = rng.choice([("a", "b", "nb"), ("a", "nb", "b"), ("b", "nb", "a"), ("nb", "b", "a"), ("b", "a", "nb"), ("nb", "a", "b")])
+        progs.append([["a", "id", bdd_sx(ax)], ["b", "id", bdd_sx(bx)], ["nb", "not", "$b"], ["r", "ite"] + ["$" + x for x in pat]])
     # variable-count mismatch must panic in both
     for _ in range(20):
         a, b = random_bdd(rng, 3), random_bdd(rng, 4)
